@@ -365,6 +365,17 @@ func checkDistance(c C17Case, o *Obs) error {
 	}); p != nil {
 		return fmt.Errorf("Distance panicked: %v", p)
 	}
+	// frozen copies are full sketches of the same size too
+	var dFF, dFM float64
+	if p := catch(func() {
+		fa, fb := mhA.Frozen(), mhB.Frozen()
+		dFF, dFM = mash.Distance(fa, fb, c.K), mash.Distance(fa, mhB, c.K)
+	}); p != nil {
+		return fmt.Errorf("Distance on frozen sketches panicked: %v", p)
+	}
+	if dFF != dAB || dFM != dAB {
+		return fmt.Errorf("Distance differs for frozen copies of the same sketches: %v (both frozen), %v (one frozen), %v (neither)", dFF, dFM, dAB)
+	}
 	if len(mhA.View()) != n || len(mhB.View()) != n {
 		return fmt.Errorf("sketches are not full: %d and %d of %d", len(mhA.View()), len(mhB.View()), n)
 	}
